@@ -438,6 +438,7 @@ type tableGen struct {
 	ipMode  int // 0 mostly LAN, 1 mixed, 2 mostly public
 	victims []int
 	length  int
+	small   []int // pool indices of a distance class with exactly 3, 4 or 5 ids (the 5-failures rule at the bucketSize/4 boundary)
 	focus   int // pool index of a node that gets bursts of track requests (failures with a success in between); 0 = none
 }
 
@@ -537,6 +538,33 @@ func (g *tableGen) next(step int, s portalwire.VerifSnapshot) (tableOp, bool) {
 			n.port = uint16(r.Pick(tablePorts))
 		}
 		return n, true
+	}
+	if len(g.small) > 0 {
+		// bucket of exactly k = 3, 4, 5 entries: fill it, then report consecutive failed lookups against one of them
+		present := map[int]*portalwire.VerifEntry{}
+		for _, b := range s.Buckets {
+			for i := range b.Entries {
+				present[h.index[b.Entries[i].ID]] = &b.Entries[i]
+			}
+		}
+		missing := -1
+		for _, ix := range g.small {
+			if present[ix] == nil {
+				missing = ix
+			}
+		}
+		target := g.small[0]
+		switch {
+		case missing >= 0 && r.Intn(2) == 0:
+			g.c.Count("small_add")
+			return tableOp{kind: 'F', n: tblNode{idx: missing, seq: 1, hasIP: true, ip: [4]byte{10, 0, 2, byte(1 + missing%200)}, port: 30303}, flag: true}, true
+		case missing < 0 && present[target].IP.IsValid() && r.Intn(100) < 60:
+			fe := present[target]
+			n := tblNode{idx: target, seq: fe.Seq, hasIP: true, ip: fe.IP.As4(), port: uint16(fe.Port)}
+			ok := r.Intn(15) == 0
+			g.c.Count(fmt.Sprintf("small_track_k%d_ok%v", len(g.small), ok))
+			return tableOp{kind: 'T', n: n, flag: ok, picks: []int{pick()}}, true
+		}
 	}
 	if g.focus > 0 {
 		// the consecutive-failure scenario: keep one node in a bucket with >= 4 entries and report lookups against it,
@@ -681,8 +709,10 @@ func newTableHist(c *Ctx) (*tableHist, *tableGen) {
 	copy(h.self[:], r.Bytes(32))
 	h.pool = []enode.ID{h.self}
 	// ids by log distance: few buckets, so that they fill
-	shape := r.Intn(5)
+	shape := r.Intn(6)
+	smallDist := 0
 	var dists []int
+	var small []int
 	add := func(d, n int) {
 		for i := 0; i < n; i++ {
 			dists = append(dists, d)
@@ -707,6 +737,11 @@ func newTableHist(c *Ctx) (*tableHist, *tableGen) {
 		add(1, 2)
 		add(256, 12)
 		add(250, 3)
+	case 5: // one bucket with exactly 3, 4 or 5 ids: the bucketSize/4 guard of the 5-failures rule
+		add(256, 14)
+		smallDist = 255 - r.Intn(3)
+		add(smallDist, 3+r.Intn(3))
+		add(250, 2)
 	case 4: // many buckets, few ids each: the table-wide /24 limit binds before the bucket limits add up
 		for d := 256; d >= 249; d-- {
 			add(d, 5)
@@ -726,6 +761,9 @@ func newTableHist(c *Ctx) (*tableHist, *tableGen) {
 			continue
 		}
 		h.index[id] = len(h.pool)
+		if d == smallDist {
+			small = append(small, len(h.pool))
+		}
 		h.pool = append(h.pool, id)
 	}
 	h.index[h.self] = 0
@@ -740,7 +778,10 @@ func newTableHist(c *Ctx) (*tableHist, *tableGen) {
 	for i := 0; i < 3; i++ {
 		g.victims = append(g.victims, 1+r.Intn(len(h.pool)-1))
 	}
-	if r.Intn(2) == 0 && len(h.pool) > 2 {
+	g.small = small
+	if len(small) > 0 {
+		c.Count(fmt.Sprintf("small_bucket_%d", len(small)))
+	} else if r.Intn(2) == 0 && len(h.pool) > 2 {
 		g.focus = 1 + r.Intn(2) // the first ids of the pool are in the most populated distance class
 		c.Count("focus_history")
 	}
